@@ -573,9 +573,19 @@ def main(res, tier, rng, replay):
     nb = D.NetBatch(res, 'net-sim')
     fb = FlatBatch(res)
     hb = HierBatch(res)
-    for i in range(n):
+    try:
+        forced_twins = GV.signature_collisions(16 if tier == 'quick' else 200)
+    except Exception as e:
+        forced_twins = []
+        res.hist('build_errors', f'signature_collisions:{str(e)[:40]}')
+    res.cov['same_name_different_signature_pairs'] = len(forced_twins)
+    for i in range(n + 2 * len(forced_twins)):
         r = rng.fork(('d', i))
         kind = ['plan', 'lib', 'hier', 'c07', 'c08'][i % 5]
+        forced = None
+        if i >= n:
+            # instances that share a structureName() but not a port signature: both orders of every such pair (none on the unchanged tree)
+            kind, forced = 'twin', tuple(forced_twins[(i - n) // 2]) + ((i - n) % 2,)
         if i % 40 == 39:
             kind = 'derived'
         if i % 20 == 7:
@@ -596,7 +606,7 @@ def main(res, tier, rng, replay):
             elif kind == 'wide':
                 d = GV.wide_design(r)
             elif kind == 'twin':
-                d = GV.twin_design(r)
+                d = GV.twin_design(r, forced)
             else:
                 d = GV.hier_design(r)
         except Exception as e:
